@@ -80,7 +80,7 @@ class Result:
     """summary of one harness run (picklable)"""
     def __init__(s):
         s.entry = ''; s.params = {}; s.paths = 0; s.outcomes = {}; s.bugs = []; s.inconclusive = []
-        s.reached = {}; s.stats = {}; s.wall = 0.0; s.funcs = []; s.samples = []; s.asserts = 0; s.models_used = []
+        s.routes = []; s.reached = {}; s.stats = {}; s.wall = 0.0; s.funcs = []; s.samples = []; s.asserts = 0; s.models_used = []
     def ok(s): return not s.bugs and not s.inconclusive
 
 def run_harness(ll, entry, params=None, setup=None, on_end=None, env_models=None, witness=None, eng_opts=None, args=(), max_bugs=8, allow_throw=None):
@@ -121,6 +121,7 @@ def run_harness(ll, entry, params=None, setup=None, on_end=None, env_models=None
         res.outcomes[key] = res.outcomes.get(key, 0) + 1
         for e in s_.log:
             if e[0] == 'reach': res.reached[e[1]] = res.reached.get(e[1], 0) + 1
+            elif e[0] == 'route': res.routes.append(list(e[1:]))
         res.asserts += s_.env.get('asserts', 0)
         if out[0] == 'bug':
             if len(res.bugs) < max_bugs:
@@ -152,9 +153,27 @@ def build_native(name, extra_src=(), libs=('-lz',), sanitize=True, tag=''):
     os.makedirs(BUILD, exist_ok=True)
     exe = os.path.join(BUILD, os.path.splitext(name)[0] + tag + ('.san' if sanitize else '.nat'))
     srcs = [harness_src(name), os.path.join(VERIF, 'harness', 'verif_native.cpp')] + [os.path.join(REPO, x) for x in extra_src]
-    cmd = [CLANG] + NATIVE_FLAGS + (SAN if sanitize else []) + incs() + srcs + ['-rdynamic', '-ldl'] + list(libs) + ['-o', exe]
-    r = subprocess.run(cmd, capture_output=True, text=True)
-    if r.returncode: raise RuntimeError('native build failed: %s\n%s' % (' '.join(cmd), r.stderr[-4000:]))
+    base = [CLANG] + NATIVE_FLAGS + (SAN if sanitize else []) + incs()
+    link = ['-rdynamic', '-ldl'] + list(libs) + ['-o', exe]
+    objs = []
+    for i, src in enumerate(srcs):
+        o = exe + '.%d.o' % i
+        r = subprocess.run(base + ['-c', src, '-o', o], capture_output=True, text=True)
+        if r.returncode: raise RuntimeError('native compile failed: %s\n%s' % (src, r.stderr[-4000:]))
+        objs.append(o)
+    r = subprocess.run([CLANG] + (SAN if sanitize else []) + objs + ['-Wl,--no-demangle'] + link, capture_output=True, text=True)
+    if r.returncode:
+        # a kernel harness that #includes a large real TU only needs the functions it actually calls: every symbol the
+        # rest of the library would provide becomes a weak absolute-zero stub (calling one would crash, which a replay
+        # would report as a mismatch, never as a confirmation)
+        und = sorted(set(re.findall(r"undefined reference to `([^']+)'", r.stderr)))
+        if not und: raise RuntimeError('native link failed:\n' + r.stderr[-4000:])
+        stub = exe + '.stubs.c'
+        with open(stub, 'w') as f:
+            for i, u in enumerate(und):
+                f.write('__attribute__((weak)) void verif_stub_%d(void) __asm__("%s");\nvoid verif_stub_%d(void) { __builtin_trap(); }\n' % (i, u, i))
+        r = subprocess.run([CLANG, '-w', '-x', 'none'] + (SAN if sanitize else []) + objs + [stub, '-Wl,--no-demangle'] + link, capture_output=True, text=True)
+        if r.returncode: raise RuntimeError('native link failed (with stubs):\n' + r.stderr[-4000:])
     return exe
 
 def write_replay(path, inputs, meta=None):
